@@ -98,7 +98,12 @@ def ties_stream(v, findings):
             fn = pdt.dense_rank if dense else pdt.rank
             kw = dict(arrange=key, partition_by=t.g) if part else dict(arrange=key)
             try:
-                out = t >> pdt.mutate(r=fn(**kw)) >> pdt.arrange(t.i) >> pdt.export(pdt.Polars())
+                if not desc and ti % 2 == 1:
+                    # the method spelling: x.rank(partition_by=..) ranks by x itself
+                    e = (t.k.dense_rank if dense else t.k.rank)(**({"partition_by": t.g} if part else {}))
+                else:
+                    e = fn(**kw)
+                out = t >> pdt.mutate(r=e) >> pdt.arrange(t.i) >> pdt.export(pdt.Polars())
                 got = out.get_column("r").to_list()
             except Exception as e:  # noqa: BLE001
                 problems.append(dict(kind="rank_unmarked_nulls_error", backend=be, table=df.to_dict(as_series=False), exc=type(e).__name__, msg=str(e)[:160]))
